@@ -312,6 +312,22 @@ def hMax : Handler := handler fun args =>
   | [se, parts] => do pure (optIntOut (maxB (← se.toNat?) (← parts.toIntss?)))
   | _ => none
 
+def hMin : Handler := handler fun args =>
+  match args with
+  | [se, parts] => do pure (optIntOut (minB (← se.toNat?) (← parts.toIntss?)))
+  | _ => none
+
+/-- `(anyall se ((0|1 …)…))` ↦ `(any all)` -/
+def hAnyAll : Handler := handler fun args =>
+  match args with
+  | [se, parts] => do
+    let se ← se.toNat?
+    let b := (← parts.toNatss?).map fun p => p.map fun x => x != 0
+    match anyB se b, allB se b with
+    | some x, some y => pure (.list [SExp.ofBool x, SExp.ofBool y])
+    | _, _ => pure (.list [.sym "hang"])
+  | _ => none
+
 def hTopk : Handler := handler fun args =>
   match args with
   | [k, se, parts] => do pure (optOut ((topkB (← k.toNat?) (← se.toNat?) (← parts.toIntss?)).map SExp.ofInts))
@@ -410,7 +426,7 @@ def hJoin : Handler := handler fun args =>
 def tableC48 : List (String × Handler) := [("join", hJoin),
   ("accumulate", hAccumulate), ("take", hTake), ("boundaries", hBoundaries), ("nsplits", hNsplits),
   ("repartition", hRepartition), ("fold", hFold), ("foldnoinit", hFoldNoInit), ("sum", hSum), ("count", hCount),
-  ("max", hMax), ("topk", hTopk), ("freq", hFreq), ("distinct", hDistinct), ("foldby", hFoldby),
+  ("max", hMax), ("min", hMin), ("anyall", hAnyAll), ("topk", hTopk), ("freq", hFreq), ("distinct", hDistinct), ("foldby", hFoldby),
   ("shuffle", hShuffle), ("groupbytasks", hGroupbyTasks), ("groupbydisk", hGroupbyDisk), ("digit", hDigit),
   ("setdigit", hSetDigit), ("product", hProduct), ("zip", hZip)]
 
